@@ -52,7 +52,41 @@ REPLAYERS = {
 }
 
 
+PREFIX = {pid: (pid,) for pid in CHECKS}
+PREFIX["C14"] = ("C14", "C16")
+
+
 def replay(chk, path: str) -> int:
+    """Re-run the recorded inputs of a replay file against the current tree; dispatch on the kind of record."""
     with open(path) as f:
         rp = json.load(f)
+    kind = rp.get("kind", "")
+    pre = PREFIX[chk.pid]
+    if kind == "hdlc-trace":
+        return drv_hdlc.replay_trace(chk, rp, pre)
+    if kind == "hdlc-behaviour":
+        drv_hdlc.replay_behaviours(chk, pre, only=[rp["behaviour"]])
+        return chk.finish(rule="replay of one TLC-generated behaviour")
+    if kind in ("p1-trace", "p1-gen"):
+        return drv_p1.replay_any(chk, rp, pre)
+    if kind == "mem-trace":
+        return drv_readers.replay_c19(chk, rp)
+    if kind in ("conn-trace",):
+        return drv_conn.replay_any(chk, rp, pre)
+    if kind == "backoff-trace":
+        return drv_conn.replay_c18(chk, rp)
+    if kind in ("proto-trace", "proto-gen"):
+        return drv_proto.replay_any(chk, rp, pre)
+    if kind in ("auto-trace", "auto-gen"):
+        return drv_auto.replay_any(chk, rp, pre)
+    if kind == "parse-gen":
+        return drv_auto.replay_c15(chk, rp)
+    if kind == "obis-op":
+        return drv_obis.replay_c20(chk, rp)
+    if kind == "p1dec-trace":
+        return drv_p1dec.replay_c11(chk, rp)
+    if kind == "cosem-trace":
+        return drv_cosem.replay_any(chk, rp, pre)
+    if kind.startswith("fcs"):
+        return drv_fcs.replay(chk, rp)
     return REPLAYERS[chk.pid](chk, rp)
